@@ -69,6 +69,39 @@ def failing(case: dict, want_bad: bool) -> bool:
     return bool(bad) if want_bad else bool(bad or diff)
 
 
+def _slots(case: dict) -> list[tuple]:
+    slots = [("key", t) for t in G.universe(case)]
+    if case["kind"] == "invalidate":
+        slots += [("arg", n) for n in case["args"] if n not in (case.get("omit") or [])]
+        slots += [("lit", j) for j, seg in enumerate(case["template"]) if seg[0] == "lit"]
+    return slots
+
+
+def _slot_text(case: dict, slot) -> str:
+    kind, x = slot
+    return x if kind == "key" else case["args"][x] if kind == "arg" else case["template"][x][1]
+
+
+def _with_slot(case: dict, slot, text: str):
+    """the case with one string replaced everywhere it occurs (None if two keys would collide)"""
+    kind, x = slot
+    c = json.loads(json.dumps(case))
+    if kind == "key":
+        if text in G.universe(case):
+            return None
+        for k in c["keys"]:
+            if k[0] == x:
+                k[0] = text
+        for op in c.get("txops") or []:
+            if op[1] == x:
+                op[1] = text
+    elif kind == "arg":
+        c["args"][x] = text
+    else:
+        c["template"][x][1] = text
+    return c
+
+
 def shrink(case: dict, want_bad: bool) -> dict:
     cur = dict(case)
 
@@ -92,6 +125,21 @@ def shrink(case: dict, want_bad: bool) -> dict:
             cur["pattern"] = "".join(chars)
         if cur.get("adv") and failing(with_("adv", 0), want_bad):
             cur["adv"] = 0
+        # shorten the strings themselves (key texts, template pieces, argument values)
+        for slot in _slots(cur):
+            if slot not in _slots(cur):
+                continue
+            text = _slot_text(cur, slot)
+            if len(text) < 2:
+                continue
+
+            def still(cs, slot=slot):
+                c = _with_slot(cur, slot, "".join(cs))
+                return c is not None and failing(c, want_bad)
+
+            chars = ddmin(list(text), still)
+            if len(chars) < len(text):
+                cur = _with_slot(cur, slot, "".join(chars))
     return cur
 
 
@@ -178,8 +226,10 @@ def sweep_frame(chk: Check, st: dict, kind: str, keys: list, adv: int, patterns:
             tags.append("regex_reading_would_select_differently")
         if "*" in pat and sel and len(sel) < n_live:
             tags.append("wildcard_splits_the_live_keys")
-        if expired_texts and j < 40 and any(G.pyglob(pat, k) for k in expired_texts):
-            tags.append("expired_unpurged_key_matches")
+        if expired_texts:
+            rx = re.compile(".*".join(re.escape(part) for part in pat.split("*")), re.DOTALL)   # counting only
+            if any(rx.fullmatch(k) for k in expired_texts):
+                tags.append("expired_unpurged_key_matches")
         for t in tags:
             st["interesting"][t] = st["interesting"].get(t, 0) + 1
         if set(tags) & NONTRIVIAL:
@@ -336,12 +386,12 @@ def run(chk: Check) -> int:
         for i, t in enumerate(small):
             r = rng.random()
             mixed.append([t, 8 if r < 0.33 else 96 if r < 0.66 else None, f"t:{i % 5}"])
-        pats = small if chk.thorough else rng.sample(small, 250)
+        pats = small if chk.thorough else rng.sample(small, 500)
         for kind, cmd in [("mem", "scan"), ("facade", "get_match")] + ([("facade_secret", "scan"), ("mem", "get_match"), ("facade", "scan")] if chk.thorough else []):
             if not stop:
                 stop = sweep_frame(chk, st, kind, mixed, 16, pats, cmd, "mixed-ttl")
                 found += int(stop)
-        dpats = small if chk.thorough else rng.sample(small, 60)
+        dpats = small if chk.thorough else rng.sample(small, 300)
         for kind in ["mem"] + (["facade"] if chk.thorough else []):
             if not stop:
                 stop = sweep_frame(chk, st, kind, all_live, 0, dpats, "delete_match", "exhaustive-delete")
@@ -349,13 +399,13 @@ def run(chk: Check) -> int:
 
     # 3. transactions: every split of three keys between store, overlay and pending deletes
     if not stop:
-        splits = split_cases(chk, None if chk.thorough else 240)
+        splits = split_cases(chk, None if chk.thorough else 1500)
         st["tx_splits"] = len(splits)
         stop = run_batch(splits)
 
     # 4. random longer patterns / keys over the full metacharacter alphabet, all entry points
     if not stop:
-        stop = run_batch(gen_cases(chk, chk.budget(1400, 40000)))
+        stop = run_batch(gen_cases(chk, chk.budget(6000, 150000)))
 
     if proof is not None:
         chk.proof_broken(proof, found > 0)
